@@ -107,7 +107,7 @@ Lemma elab_item_closed x :
   item_ok x = true -> is_sep x = false -> forall f k, elab_item f x k = Ok (pel_item f x).
 Proof.
   induction x using item_ind'; intros Hok Hs f kk; simpl in *; try reflexivity; try discriminate.
-  - (* Rep *) apply andb_true_iff in Hok as [Ho Hi].
+  - (* Rep *) apply andb_true_iff in Hok as [Ho Hi]. apply andb_true_iff in Ho as [_ Ho].
     rewrite (IHx Hi (operand_not_sep _ Ho) f _). reflexivity.
   - (* Group *) apply andb_true_iff in Hok as [_ Hb].
     rewrite (elab_list_closed body H Hb). reflexivity.
